@@ -187,6 +187,8 @@ def run(p):
         sels = [None]
         for k in range(1, maxk + 1):
             sels += [list(x) for x in itertools.permutations(columns, k)]
+        if not rows:
+            sels = [None]      # an empty handle knows no partition columns: only the plain read is judged
         for cols in sels:
             for index in ((None, False, index_name) if index_name else (None, False)):
                 counts["reads"] += 1
@@ -230,6 +232,11 @@ def run(p):
         if index is None and index_name and cols is not None and index_name in want_cols:
             want_cols = [c for c in want_cols if c != index_name]
         got_cols = [str(c) for c in df.columns]
+        if not rows and cols is None:
+            # an empty selection has no paths to derive partition columns from: only the row count is judged
+            if len(df):
+                bad("rowcount", "%s: %d rows, the part is empty" % (what, len(df)), op=op)
+            return
         exp_cols = [c for c in want_cols if not (index_name and c == index_name and index is None)]
         if index is False and index_name and cols is None:
             exp_cols = [c for c in full.columns] + [index_name]
@@ -292,7 +299,8 @@ def run(p):
             continue
         # ---- level 2
         m = len(idx)
-        second = [("pickle", None), ("copy", None), ("deepcopy", None)]
+        # a handle opened on a file object cannot be pickled (the file object is not picklable): excluded
+        second = [("copy", None)] if kind == "fileobj" else [("pickle", None), ("copy", None), ("deepcopy", None)]
         second += [("pick", i) for i in range(-m, m)]
         sl2 = slices_for(m)
         second += [("slice", w) for w in sl2.values()]
